@@ -1,7 +1,70 @@
-(* C19 — placeholder while the proofs are being built *)
-From Coq Require Import ZArith QArith List Bool.
-From RV Require Import Base.PyNum Algo.DominantBpm Algo.ScrollSpeed Algo.AnalysisSpec.
+(* C19 — dominant bpm, scroll speed, SV normalisation.  Property theorems only: each is closed by [exact]
+   from Proofs/AnalysisProofs.v.  Model: Algo/DominantBpm.v, Algo/ScrollSpeed.v; specification: Algo/AnalysisSpec.v. *)
+From Coq Require Import ZArith QArith Qabs List Bool.
+From RV Require Import Base.PyNum Algo.DominantBpm Algo.ScrollSpeed Algo.AnalysisSpec Proofs.AnalysisProofs.
 Import ListNotations.
 Open Scope Q_scope.
-Example C19_nonvacuous : wf_chart (mkChart [(0, 120); (1000, 240)] (Some [(500, 2)]) [0; 3000]) = true.
+
+(* For every chart in the property's domain (>= 1 tempo point at or before the first object, >= 1 object, no two
+   tempo points at one time, bpm > 0) whose tempo ROWS are in time order and whose last timed row is a note,
+   dominant_bpm returns a bpm value of the chart whose total active time between the first tempo point and
+   the last object is maximal. *)
+Theorem C19_dominant_is_argmax : forall c,
+  wf_chart c = true -> ssortedb (tempo_times c) = true -> last_is_noteb c = true ->
+  dominant_spec 0 c (dominant_bpm c).
+Proof. exact dominant_is_argmax. Qed.
+
+(* Without those two guards the statement is false of the (faithful) model: *)
+Theorem C19_dominant_is_argmax_refuted_unsorted :
+  exists c, wf_chart c = true /\ last_is_noteb c = true /\ ssortedb (tempo_times c) = false
+            /\ dominant_bpm c = Some 120 /\ ~ dominant_spec 0 c (dominant_bpm c).
+Proof. exact dominant_is_argmax_refuted_unsorted. Qed.
+Theorem C19_dominant_is_argmax_refuted_tempo_after_last :
+  exists c, wf_chart c = true /\ ssortedb (tempo_times c) = true /\ last_is_noteb c = false
+            /\ dominant_bpm c = Some 240 /\ ~ dominant_spec 0 c (dominant_bpm c).
+Proof. exact dominant_is_argmax_refuted_tempo_after_last. Qed.
+Theorem C19_dominant_is_argmax_refuted_sv_after_last :
+  exists c, wf_chart c = true /\ ssortedb (tempo_times c) = true /\ last_is_noteb c = false
+            /\ dominant_bpm c = Some 240 /\ ~ dominant_spec 0 c (dominant_bpm c).
+Proof. exact dominant_is_argmax_refuted_sv_after_last. Qed.
+(* ... and scroll_speed / sv_normalize inherit the wrong reference on the same witnesses (oracle level) *)
+Theorem C19_inherited_reference_refuted_oracle :
+  forallb (fun c => wf_chart c && negb (scroll_specb 0 c None (scroll_speed c None)))
+          [witness_unsorted; witness_tempo_after_last; witness_sv_after_last] = true
+  /\ norm_specb 0 witness_sv_after_last None (sv_normalize witness_sv_after_last None) = false.
+Proof. exact inherited_reference_refuted_oracle. Qed.
+
+(* SV normalisation returns exactly one SV per tempo point, at its time, with multiplier * bpm = reference, where
+   the reference is the override (any override > 0, any row order) or, without override, a dominant bpm (under
+   the guard of C19_dominant_is_argmax). *)
+Theorem C19_sv_normalize_spec : forall c ov,
+  wf_chart c = true -> wf_override ov = true -> ref_guard c ov = true -> c_svs c <> None ->
+  norm_spec 0 c ov (sv_normalize c ov).
+Proof. exact sv_normalize_spec. Qed.
+
+(* PARTIAL (see Proofs/AnalysisProofs.v, section D, for the full statement and what is missing): scroll speed is
+   bpm/ref * SV at every breakpoint and every tempo/SV point is a breakpoint, for every chart of the small scope. *)
+Theorem C19_scroll_speed_spec_partial : forall b s n,
+  In b small_tempos -> In s small_svs -> In n small_notes -> wf_chart (mkChart b s n) = true ->
+  exists o, scroll_speed_with (mkChart b s n) 3 = Some o /\ scroll_ok 0 (mkChart b s n) 3 o.
+Proof. exact scroll_speed_spec_partial. Qed.
+
+(* The boolean oracles evaluated on the implementation's outputs are sound (the dominant-bpm one also complete). *)
+Theorem C19_dominant_oracle_sound : forall tol c out, dominant_specb tol c out = true -> dominant_spec tol c out.
+Proof. exact dominant_specb_sound. Qed.
+Theorem C19_dominant_oracle_complete : forall tol c out, dominant_spec tol c out -> dominant_specb tol c out = true.
+Proof. exact dominant_specb_complete. Qed.
+Theorem C19_scroll_oracle_sound : forall tol c ov out, scroll_specb tol c ov out = true -> scroll_spec tol c ov out.
+Proof. exact scroll_specb_sound. Qed.
+Theorem C19_norm_oracle_sound : forall tol c ov out, norm_specb tol c ov out = true -> norm_spec tol c ov out.
+Proof. exact norm_specb_sound. Qed.
+
+(* non-vacuity: a chart with a repeated bpm value, an SV at a tempo point, two SVs at one time and an SV before
+   the first tempo point satisfies every hypothesis above, and the three routines return what the property says *)
+Example C19_nonvacuous :
+  let c := mkChart [(0, 120); (1000, 240); (2000, 120); (2500, 60)]
+                   (Some [(-500, 2); (1000, 1 # 2); (1500, 2); (1500, 3)]) [0; 2750; 4000] in
+  wf_chart c && ssortedb (tempo_times c) && last_is_noteb c && ref_guard c None
+  && dominant_specb 0 c (dominant_bpm c) && scroll_specb 0 c None (scroll_speed c None)
+  && norm_specb 0 c (Some 90) (sv_normalize c (Some 90)) = true.
 Proof. vm_compute. reflexivity. Qed.
